@@ -9,7 +9,7 @@ PROP = 'C16'
 EXPLANATION = ('Whole-server level, both servers, client monitoring ON: up to three sessions, each with a fate chosen by a '
                'solver-enumerated selector (stays alive on polling / WebSocket / after an upgrade, rejected at connect, ended by '
                'CLOSE packet, disconnect(sid), WebSocket drop or protocol error, client vanishing silently, mid-poll, mid-upgrade '
-               'before the probe or after it), user data saved per session; then the virtual clock runs for a bounded number of '
+               'before the probe or after it - with the socket reported closed or silently, never reported), user data saved per session; then the virtual clock runs for a bounded number of '
                'monitor sweeps and the session table, the API results for every id and the visibility of user data are compared '
                'with the harness\'s own bookkeeping.')
 STUBS = SIM_STUBS
